@@ -174,6 +174,14 @@ impl<'ast> Visit<'ast> for ServerV {
     }
 }
 
+#[derive(Default)]
+struct Lits(Vec<String>);
+impl<'ast> Visit<'ast> for Lits {
+    fn visit_lit_str(&mut self, l: &'ast syn::LitStr) {
+        self.0.push(l.value());
+    }
+}
+
 fn case(rng: &mut Rng, ctx: &mut Ctx, idx: u64, dir: &str) {
     let pkg: Option<String> = match rng.below(4) {
         0 => None,
@@ -295,6 +303,23 @@ fn case(rng: &mut Rng, ctx: &mut Ctx, idx: u64, dir: &str) {
         if let Some(m) = sm {
             sv.visit_item_mod(m);
         }
+        // every string literal of each module: facts that do not depend on how the generated code
+        // is organised
+        let mut clits = Lits::default();
+        if let Some(m) = cm {
+            clits.visit_item_mod(m);
+        }
+        let mut slits = Lits::default();
+        if let Some(m) = sm {
+            slits.visit_item_mod(m);
+        }
+        // the detailed server checks apply to the dispatch structure this monitor knows (one match
+        // arm per full path); any other organisation is judged on literals only, and by the
+        // compiled-and-run leg (c11gen)
+        let server_structure_known = sv.arms.iter().any(|a| a.path.starts_with('/'));
+        if build_server && !server_structure_known {
+            ctx.count("structure.server_unrecognised");
+        }
         for m in &s.methods {
             ctx.count("observed.methods_checked");
             let kw = ["type", "match", "move", "loop", "async", "box"].contains(&snake(&m.name).as_str());
@@ -320,12 +345,28 @@ fn case(rng: &mut Rng, ctx: &mut Ctx, idx: u64, dir: &str) {
                         if paths != vec![&want_path] {
                             ctx.violation_class("client-path", &class, format!("client sends {}.{} to {:?}, expected {:?}", s.name, m.name, paths, want_path));
                         }
-                        if !f.inner_calls.iter().any(|c| c == shape) || f.inner_calls.iter().any(|c| ["unary", "server_streaming", "client_streaming", "streaming"].contains(&c.as_str()) && c != shape) {
+                        let known: Vec<&String> = f.inner_calls.iter().filter(|c| ["unary", "server_streaming", "client_streaming", "streaming"].contains(&c.as_str())).collect();
+                        if known.is_empty() {
+                            // the call into tonic::client::Grpc is organised differently: the
+                            // signature checks below and the compiled-and-run leg judge the shape
+                            ctx.count("structure.client_unrecognised");
+                        } else if known.iter().any(|c| c.as_str() != shape) {
                             ctx.violation_class("client-shape", &class, format!("client method {} calls {:?}, expected Grpc::{}", f.name, f.inner_calls, shape));
                         }
-                        // GrpcMethod::new(service, method)
-                        if !(f.strings.contains(&svc_name_expected) && f.strings.contains(&m.name)) {
-                            ctx.violation_class("client-grpc-method", &class, format!("GrpcMethod of {} is built from {:?}", f.name, f.strings));
+                        // the service and method names handed to GrpcMethod: every name-like literal
+                        // of the method (no '/', no spaces) must be the method's or the service's
+                        // own name; a package-qualified name where the path has none (or the reverse)
+                        // is a disagreement
+                        for lit in f.strings.iter().filter(|x| !x.starts_with('/') && !x.contains(' ') && !x.is_empty() && x.chars().all(|c| c.is_alphanumeric() || c == '_' || c == '.')) {
+                            let is_method = *lit == m.name;
+                            let is_service = *lit == svc_name_expected;
+                            let other_spelling_of_service = *lit != svc_name_expected && (*lit == svc_fq || *lit == s.name);
+                            if other_spelling_of_service && !is_method && !is_service {
+                                ctx.violation_class("client-grpc-method", &class, format!("{} names the service {:?} while its path uses {:?}", f.name, lit, svc_name_expected));
+                            }
+                        }
+                        if !clits.0.iter().any(|x| *x == svc_name_expected) && !clits.0.iter().any(|x| x.starts_with(&format!("/{}/", svc_name_expected))) {
+                            ctx.violation_class("client-grpc-method", &class, format!("the client module never spells the service name {:?}", svc_name_expected));
                         }
                         if !(f.sig.contains(&m.req) && f.sig.contains(&m.resp)) {
                             ctx.violation_class("client-types", &class, format!("signature of {} does not mention {} / {}: {}", f.name, m.req, m.resp, f.sig));
@@ -342,7 +383,16 @@ fn case(rng: &mut Rng, ctx: &mut Ctx, idx: u64, dir: &str) {
                 }
             }
             // ---- server side
-            if build_server {
+            if build_server && !server_structure_known {
+                // literal-level facts only
+                let full = slits.0.iter().any(|x| *x == want_path);
+                let bare = slits.0.iter().any(|x| *x == m.name);
+                let prefix = slits.0.iter().any(|x| x.contains(&svc_name_expected));
+                if !(full || (bare && prefix)) {
+                    ctx.violation_class("server-path", &class, format!("the server module spells neither {:?} nor the method name {:?} next to the service name {:?}", want_path, m.name, svc_name_expected));
+                }
+            }
+            if build_server && server_structure_known {
                 match sv.arms.iter().find(|a| a.path == want_path) {
                     None => ctx.violation_class("server-path", &class, format!("server has no arm for {:?}; arms: {:?}", want_path, sv.arms.iter().map(|a| &a.path).collect::<Vec<_>>())),
                     Some(a) => {
@@ -366,17 +416,20 @@ fn case(rng: &mut Rng, ctx: &mut Ctx, idx: u64, dir: &str) {
             }
         }
         if build_server {
-            if sv.arms.len() != s.methods.len() {
+            if server_structure_known && sv.arms.iter().filter(|a| a.path.starts_with('/')).count() != s.methods.len() {
                 ctx.violation("server-arm-count", format!("{} arms for {} methods", sv.arms.len(), s.methods.len()));
             }
-            if !sv.has_default_arm {
-                ctx.violation("server-no-default-arm", "no UNIMPLEMENTED default arm".into());
-            }
-            if sv.service_name_const.as_deref() != Some(svc_name_expected.as_str()) {
-                ctx.violation_class("service-name", if emit_package { "emit-package" } else { "no-package" }, format!("SERVICE_NAME = {:?}, the paths use {:?}", sv.service_name_const, svc_name_expected));
-            }
-            if sv.named_service.as_deref() != Some("SERVICE_NAME") && sv.named_service.as_deref().map(|x| x.trim_matches('"')) != Some(svc_name_expected.as_str()) {
-                ctx.violation("named-service", format!("NamedService::NAME = {:?}", sv.named_service));
+            // advertised name: NamedService::NAME is a literal or names a constant of the module
+            let advertised: Option<String> = match sv.named_service.as_deref() {
+                Some(x) if x.starts_with('"') => Some(x.trim_matches('"').to_string()),
+                Some("SERVICE_NAME") => sv.service_name_const.clone(),
+                _ => None,
+            };
+            match advertised {
+                Some(a) if a == svc_name_expected => {}
+                Some(a) => ctx.violation_class("service-name", if emit_package { "emit-package" } else { "no-package" }, format!("the server advertises {:?}, the paths use {:?}", a, svc_name_expected)),
+                // spelled some other way: the compiled-and-run leg reads the real constant
+                None => ctx.count("structure.name_unrecognised"),
             }
         }
     }
